@@ -16,3 +16,61 @@ pub mod props {
         all().into_iter().find(|p| p.id == id)
     }
 }
+
+/// Entry point of the coverage-guided target (`/verif/fuzz`, libFuzzer).
+/// byte 0 selects the property (among those marked `fuzz`, or the one named by VCHECK_FUZZ_PROP),
+/// byte 1 the sub-check, the rest is the raw u32 vector (little endian, zero padded).
+/// A non-listed oracle failure writes a replay file and aborts, so that libFuzzer saves the input.
+pub fn fuzz_one(data: &[u8]) {
+    use std::sync::OnceLock;
+    use vcore::engine::*;
+    static STATE: OnceLock<(Vec<Property>, Findings)> = OnceLock::new();
+    let (plist, findings) = STATE.get_or_init(|| {
+        // libfuzzer-sys aborts on every panic; the sub-checks need to observe required panics
+        install_silent_panic_hook();
+        let only = std::env::var("VCHECK_FUZZ_PROP").ok();
+        let mut v: Vec<Property> = props::all().into_iter().filter(|p| match &only {
+            Some(id) => p.id == id,
+            None => p.fuzz,
+        }).collect();
+        if v.is_empty() {
+            v = props::all();
+        }
+        (v, Findings::load(&format!("{}/known_findings.json", runner::VERIF_DIR)))
+    });
+    if data.len() < 2 {
+        return;
+    }
+    let p = &plist[data[0] as usize % plist.len()];
+    let sc = &p.subchecks[data[1] as usize % p.subchecks.len()];
+    let raw = bytes_to_raw(&data[2..], sc.len);
+    let r = exec_case(sc, &raw, false);
+    if let Outcome::Fail { sig, msg } = r.outcome {
+        if findings.is_known(p.id, sc.name, sig).is_some() {
+            return;
+        }
+        let rec = exec_case(sc, &raw, true);
+        let f = Failure { subcheck: sc.name.to_string(), raw, sig: sig.to_string(), msg: msg.clone(), notes: rec.notes };
+        let path = write_replay(&format!("{}/replays", runner::VERIF_DIR), p.id, &f);
+        eprintln!("FUZZ-FAILURE property={} subcheck={} signature={} replay={}\n  {}", p.id, sc.name, sig, path, msg);
+        std::process::abort();
+    }
+}
+
+pub fn bytes_to_raw(data: &[u8], len: usize) -> Vec<u32> {
+    let mut raw = vec![0u32; len];
+    for (i, ch) in data.chunks(4).take(len).enumerate() {
+        let mut b = [0u8; 4];
+        b[..ch.len()].copy_from_slice(ch);
+        raw[i] = u32::from_le_bytes(b);
+    }
+    raw
+}
+
+pub fn raw_to_bytes(prop_index: u8, sub_index: u8, raw: &[u32]) -> Vec<u8> {
+    let mut out = vec![prop_index, sub_index];
+    for r in raw {
+        out.extend_from_slice(&r.to_le_bytes());
+    }
+    out
+}
